@@ -266,6 +266,8 @@ def inlined(expr: ast.AST, stmts: Iterable[ast.stmt], keep=(), depth: int = 6) -
     """`expr` with every local that `stmts` bind exactly once (plain assignment) replaced by its value, recursively: the
     text of the result does not depend on the names (or the existence) of such temporaries."""
     defs = single_defs(list(stmts))
+    # a re-binding of a name in terms of itself (`options = merge(options)`: the name is a parameter) is not a definition to look through
+    defs = {k: v for k, v in defs.items() if not any(isinstance(x, ast.Name) and x.id == k for x in ast.walk(v))}
 
     class T(ast.NodeTransformer):
         def __init__(self, d):
@@ -602,3 +604,62 @@ def inline_simple_locals(fn):
                         lst.append(ast.Pass())
         R().visit(fn)
     return ast.fix_missing_locations(fn)
+
+
+def ifexp_assign_to_if_inplace(root) -> int:
+    """`T = A if C else B` (one plain assignment whose whole value is a conditional expression) is `if C: T = A` / `else: T = B` — the
+    statement form is what most of the analysed code uses, so rules are written for it."""
+    done = 0
+    for holder in list(ast.walk(root)):
+        for f in ("body", "orelse", "finalbody"):
+            lst = getattr(holder, f, None)
+            if not (isinstance(lst, list) and lst and isinstance(lst[0], ast.stmt)):
+                continue
+            for i, st in enumerate(lst):
+                if isinstance(st, ast.Assign) and len(st.targets) == 1 and isinstance(st.value, ast.IfExp) and isinstance(st.targets[0], (ast.Name, ast.Attribute)):
+                    v = st.value
+                    a = ast.copy_location(ast.Assign(targets=[ast_copy(st.targets[0])], value=v.body), st)
+                    b = ast.copy_location(ast.Assign(targets=[ast_copy(st.targets[0])], value=v.orelse), st)
+                    lst[i] = ast.copy_location(ast.If(test=v.test, body=[a], orelse=[b]), st)
+                    done += 1
+    if done:
+        ast.fix_missing_locations(root)
+    return done
+
+
+def any_guard_to_loops_inplace(root) -> int:
+    """`if any(E for a in A for b in B if C): <body that ends in raise/return>` (no else) is the loop nest
+    `for a in A: for b in B: if C: if E: <body>` — the first element for which E holds leaves through the body in both spellings.
+    Not applied when a comprehension variable is also a name of the enclosing function (it would leak)."""
+    done = 0
+    for fn in [n for n in ast.walk(root) if isinstance(n, (ast.FunctionDef, ast.AsyncFunctionDef))]:
+        for holder in list(ast.walk(fn)):
+            for f in ("body", "orelse", "finalbody"):
+                lst = getattr(holder, f, None)
+                if not (isinstance(lst, list) and lst and isinstance(lst[0], ast.stmt)):
+                    continue
+                for i, st in enumerate(lst):
+                    if not (isinstance(st, ast.If) and not st.orelse and st.body and isinstance(st.body[-1], (ast.Raise, ast.Return))):
+                        continue
+                    t = st.test
+                    if not (isinstance(t, ast.Call) and isinstance(t.func, ast.Name) and t.func.id == "any" and len(t.args) == 1 and not t.keywords
+                            and isinstance(t.args[0], ast.GeneratorExp)):
+                        continue
+                    g = t.args[0]
+                    bound = {x.id for c in g.generators for x in ast.walk(c.target) if isinstance(x, ast.Name)}
+                    outside = {x.id for x in ast.walk(fn) if isinstance(x, ast.Name) and not any(x is y for y in ast.walk(g))} | {a.arg for a in fn.args.args}
+                    if bound & outside or any(c.is_async for c in g.generators):
+                        continue
+                    inner = ast.copy_location(ast.If(test=g.elt, body=st.body, orelse=[]), st)
+                    for c in reversed(g.generators):
+                        for cond in reversed(c.ifs):
+                            inner = ast.copy_location(ast.If(test=cond, body=[inner], orelse=[]), st)
+                        inner = ast.copy_location(ast.For(target=c.target, iter=c.iter, body=[inner], orelse=[]), st)
+                        for x in ast.walk(inner.target):
+                            if isinstance(x, ast.Name):
+                                x.ctx = ast.Store()
+                    lst[i] = inner
+                    done += 1
+    if done:
+        ast.fix_missing_locations(root)
+    return done
